@@ -10,7 +10,7 @@ FLAGS = {
     "C01": {"closed-while-in-use", "closed-twice", "closed-runner-granted"},
     "C02": {"two-replies", "not-drained", "request-never-answered", "scheduler-stuck-holding-its-lock"},
     "C11": {"more-runners-than-limit", "two-runners-for-one-model", "granted-runner-with-other-options",
-            "granted-runner-of-other-model", "compatible-request-waits-instead-of-reusing-the-loaded-runner"},
+            "granted-runner-of-other-model", "compatible-request-waits-instead-of-reusing-the-loaded-runner", "runner-started-where-it-does-not-fit"},
 }
 INVS = ["NoCloseWhileInUse", "CloseAtMostOnce", "NoDeadGrant", "AtMostOneReply", "NoOrphan", "BoundedRunners",
         "OnePerModel", "NoLockCycle", "RefNonNeg"]
@@ -172,6 +172,27 @@ def handler_progress(wd, res, cov, seed, quick):
         res.violation(f"API workload with abandoned requests (seed {seed}): {kinds}: {json.dumps(bad[0])[:400]}", p)
 
 
+def victim_choice(wd, res, cov, quick):
+    """the eviction clause of C11 at function level: every table of <= 3 (quick) / 4 loaded runners through the real
+    findRunnerToUnload; SchedVictim.tla holds the reference choice, Trace_SchedVictim.tla judges"""
+    consts = {"MaxRunners": 3 if quick else 4, "Refs": "{0, 1, 2}", "Durs": "{0, 1, 2}"}
+    cfg = vf.write_cfg(wd, "MC_SchedVictim.cfg", consts, "INIT Init\nNEXT Next\nINVARIANT IdleFirst\nCONSTRAINT Emit\nCHECK_DEADLOCK FALSE\n")
+    vals, r = vf.gen_exhaustive("SchedVictim", cfg, wd, timeout=1200)
+    cases = [dict(c, id=i + 1) for i, c in enumerate(vf.dedupe(vals))]
+    sub = os.path.join(wd, "victim")
+    os.makedirs(sub, exist_ok=True)
+    vf.copy_specs(sub)
+    recs, v, _ = vf.replay_and_validate(sub, cases, "./server", "TestVFVictimReplay", ["server"], "Trace_SchedVictim", go_timeout=900)
+    cov["victim_tables"] = len(recs)
+    cov["victim_states"] = r["distinct"]
+    cov["victim_drift"] = len(v["drift"])
+    for ln, rid, flags in v["bad"][:3]:
+        p = vf.save_replay("C11", f"victim-{rid}.ndjson", json.dumps(cases[int(rid) - 1]) + "\n")
+        res.violation(f"{flags} (findRunnerToUnload): {json.dumps(recs[ln - 1])[:300]}", p)
+    if v["drift"]:
+        res.note(f"findRunnerToUnload chose another runner than SchedVictim.tla predicts in {len(v['drift'])} tables (model drift, not a verdict)")
+
+
 def run(prop, tier="quick", seed=1, replay=None):
     t0 = time.time()
     res = vf.Result(prop)
@@ -271,6 +292,8 @@ def run(prop, tier="quick", seed=1, replay=None):
         if prop == "C02" and not replay:
             handler_progress(wd, res, cov, seed, quick)
             liveness(wd, cov, quick)
+        if prop == "C11" and not replay:
+            victim_choice(wd, res, cov, quick)
         cov["checker_cmd"] = "tlc Sched.tla (MC per configuration) ; tlc Trace_Sched.tla"
     vf.write_evidence(prop, tier, seed, "model_checking", cov, time.time() - t0, violations=len(res.violations),
                       assumptions=["fake LlamaServers (load result, ping, Close controlled by the driver), one 'metal' GPU",
